@@ -193,7 +193,7 @@ var c12setOps = []string{
 func (c12) Generate(seed uint64, i int, tier string) *Scenario {
 	r := NewRng(mix64(seed, uint64(i)) ^ 0xc12)
 	sc := &Scenario{Prop: "C12", Seed: seed, Index: i, N: map[string]int64{}}
-	long := r.Chance(1, 1500)
+	long := r.Chance(1, 2000)
 	faulty := !long && r.Chance(1, 4)
 	if r.Bool() {
 		sc.Family = "dict"
@@ -304,6 +304,11 @@ func (c12) Generate(seed uint64, i int, tier string) *Scenario {
 		n = r.Pick3(600, 3000, 10000)
 		sc.N["long"] = 1
 		sc.N["intkeys"] = int64(r.Pick3(40, 900, 4000))
+		if r.Chance(2, 5) {
+			sc.N["stride"] = int64(r.Pick3(1<<16, 1<<20, 1<<12))
+			sc.N["intkeys"] = int64(r.Pick3(900, 2000, 4000))
+			n = r.Pick3(3000, 6000, 10000)
+		}
 	}
 	for j := 0; j < n; j++ {
 		op := Op{Obj: r.Intn(2)}
@@ -312,7 +317,11 @@ func (c12) Generate(seed uint64, i int, tier string) *Scenario {
 		}
 		if long {
 			// mostly inserts and deletes over a large int key space
-			switch m := r.Intn(100); {
+			m := r.Intn(100)
+			if sc.N["stride"] > 1 && m >= 45 && m < 60 {
+				m = 0 // more inserts than deletes: the chain keeps growing
+			}
+			switch {
 			case m < 45:
 				op.Op = r.Pick([]string{"go:set", "st:setitem", "st:setdefault"})
 			case m < 75:
@@ -332,6 +341,14 @@ func (c12) Generate(seed uint64, i int, tier string) *Scenario {
 					op.Op = "st:clear"
 				default:
 					op.Op = ops[r.Intn(len(ops)-3)]
+				}
+			}
+			if (op.Op == "st:clear" || op.Op == "go:clear") && !r.Chance(1, 12) {
+				// clearing every few dozen operations would keep long histories
+				// small: most of them must build tables of hundreds or thousands
+				op.Op = r.Pick([]string{"go:set", "st:setitem"})
+				if sc.Family == "set" {
+					op.Op = r.Pick([]string{"go:insert", "st:add"})
 				}
 			}
 			op.A = int64(1000 + r.Intn(int(sc.N["intkeys"])))
@@ -425,7 +442,12 @@ func (x *c12run) key(i int) ukey {
 	// generated int key (long histories): some share Int.Hash with others
 	n := int64(i - 1000)
 	var k ukey
-	if n%5 == 0 {
+	if stride := x.sc.Knob("stride", 1); stride > 1 {
+		// ints whose Int.Hash agrees in its low bits: hundreds or thousands of
+		// live keys in ONE bucket chain (chains of more than 255 entries, growth
+		// with such a chain present)
+		k = buildKey(KeySpec{Kind: "int", ID: n*stride - 3})
+	} else if n%5 == 0 {
 		k = buildKey(KeySpec{Kind: "bigint", ID: n / 5, Hash: uint32(1 + n%3)})
 	} else {
 		k = buildKey(KeySpec{Kind: "int", ID: n})
